@@ -7,13 +7,18 @@ use std::sync::atomic::{AtomicU64, Ordering};
 
 static N: AtomicU64 = AtomicU64::new(0);
 
+/// One scratch root per check run: the supervisor creates it, hands it to its workers through
+/// VERIF_SCRATCH_ROOT and removes it when the command returns (also after worker deaths).
 pub fn scratch_root() -> PathBuf {
+    if let Ok(r) = std::env::var("VERIF_SCRATCH_ROOT") {
+        return PathBuf::from(r);
+    }
     let base = std::env::var("VERIF_SCRATCH").map(PathBuf::from).unwrap_or_else(|_| std::env::temp_dir());
     base.join(format!("icy-verif-{}", std::process::id()))
 }
 
 pub fn fresh_dir(tag: &str) -> PathBuf {
-    let d = scratch_root().join(format!("{tag}-{}", N.fetch_add(1, Ordering::Relaxed)));
+    let d = scratch_root().join(format!("p{}-{tag}-{}", std::process::id(), N.fetch_add(1, Ordering::Relaxed)));
     let _ = std::fs::create_dir_all(&d);
     d
 }
@@ -54,5 +59,8 @@ pub fn apply_mtimes(trace: &Trace, dir: &Path) {
 }
 
 pub fn cleanup_root() {
-    let _ = std::fs::remove_dir_all(scratch_root());
+    // a worker leaves the shared root to its supervisor
+    if std::env::var("VERIF_SCRATCH_ROOT").is_err() {
+        let _ = std::fs::remove_dir_all(scratch_root());
+    }
 }
